@@ -45,6 +45,14 @@
 (* validity of the identity on a grid with >= 3 points per coordinate is     *)
 (* validity everywhere.                                                      *)
 (*                                                                          *)
+(* Degrees of freedom.  Nothing above depends on nu being small: modes with   *)
+(* nu = 100 ... 10^6 (the library's fallback when a fit finds no heavy tail) *)
+(* are enumerated like the others; the inverse-gamma draw is made ONCE per   *)
+(* proposal with shape (d + nu)/2 and scale 2/(nu + dot) for EVERY nu (for   *)
+(* nu -> infinity s concentrates at 1 and the correction tends to the        *)
+(* Gaussian ratio, but no finite nu is a Gaussian: replacing the draw by     *)
+(* s = 1 while keeping the Student-t(nu) correction breaks the identity).    *)
+(*                                                                          *)
 (* Hard walls.  The derivation above is for the proposal made ONCE.  The  *)
 (* state `outside` (first draw out of the cube) is FINAL under the intended  *)
 (* rule: _propose returns the point and the sweep rejects it (Kernel.tla,    *)
@@ -214,7 +222,7 @@ ImgShift(kind, n2, axis, k, which) ==
         ELSE IF which = 0 THEN n2[i] + 2 * k * 2 * M
         ELSE -(n2[i] + Mu(mi)[i]) - Mu(mi)[i] + 2 * k * 2 * M]
 
-Foldable == /\ Variant = "intended" /\ R2(mi) % 2 = 0
+Foldable == /\ Variant = "intended" /\ R2(mi) % 2 = 0 /\ Nu(mi) <= 8      \* the harness raises T to the power r exactly
             /\ Cardinality({i \in DOMAIN kinds : kinds[i] # "hard"}) = 1
 
 Images ==
@@ -254,7 +262,8 @@ TypeOK ==
     /\ pc \in {"start", "dot", "params", "scaled", "outside", "done", "images", "factor"}
     /\ c \in Cube(Dm(mi))
     /\ Det(mi) > 0
-    /\ (Dm(mi) + Nu(mi)) % 2 = 0                   \* integer exponent (nu + d)/2
+    /\ Nu(mi) >= 1                                 \* any positive integer nu: the exponents (nu + d)/2, (nu + 2d)/2 are only
+                                                   \* carried formally (twice the exponent is an integer), never evaluated
     /\ (PD * CA) % CB = 0
 
 \* exp(AccFactor(u,u')) * q(u->u') / q(u'->u) = 1 for every lattice pair
